@@ -340,7 +340,12 @@ def run_snapshot(prog):
     stores = [(bi, si, st) for bi, si, st in f.all_rvalues() if proj(st["p"]) and (root_desc(f, st["p"]) or "").endswith(".keystate_changed_after_read")]
     reads = [bi for bi, t in f.calls() if (callee_name(t) or "").endswith("Layout::keycodes")]
     if not stores or not reads:
-        res.viol("anchor", f.loc, "the flag store / the keycodes() read was not found in handle_keystate_changes")
+        res.inst("snapshot", where=f.loc, ok=False)
+        res.oblige(False)
+        res.viol("snapshot/flag-missing", f.loc,
+                 "handle_keystate_changes does not record (keystate_changed_after_read) whether key states were removed after the keys "
+                 "of this tick were read: such a removal still has to reach the OS on the next tick, but is_idle cannot see it and "
+                 "kanata blocks with the key down")
         return res
     bi, si, st = stores[-1]
     # len() calls feeding the comparison
